@@ -26,20 +26,29 @@ def log(*a):
 
 
 def run(cmd, cwd=None, timeout=None, env=None, stdin=None):
+    """Run a command in its own process group; on timeout the whole group is killed."""
+    import signal
     t0 = time.time()
     e = dict(os.environ)
     e["CARGO_NET_OFFLINE"] = "true"
     if env:
         e.update(env)
+    p = subprocess.Popen(cmd, cwd=cwd, env=e, stdin=subprocess.PIPE if stdin is not None else subprocess.DEVNULL,
+                         stdout=subprocess.PIPE, stderr=subprocess.PIPE, text=True, errors="replace",
+                         start_new_session=True)
     try:
-        p = subprocess.run(cmd, cwd=cwd, timeout=timeout, env=e, input=stdin,
-                           stdout=subprocess.PIPE, stderr=subprocess.PIPE, text=True,
-                           errors="replace")
-        return p.returncode, p.stdout, p.stderr, time.time() - t0
-    except subprocess.TimeoutExpired as ex:
-        out = ex.stdout.decode(errors="replace") if isinstance(ex.stdout, bytes) else (ex.stdout or "")
-        err = ex.stderr.decode(errors="replace") if isinstance(ex.stderr, bytes) else (ex.stderr or "")
-        return -9, out, err + "\nTIMEOUT", time.time() - t0
+        out, err = p.communicate(input=stdin, timeout=timeout)
+        return p.returncode, out, err, time.time() - t0
+    except subprocess.TimeoutExpired:
+        try:
+            os.killpg(p.pid, signal.SIGKILL)
+        except Exception:
+            pass
+        try:
+            out, err = p.communicate(timeout=10)
+        except Exception:
+            out, err = "", ""
+        return -9, out or "", (err or "") + "\nTIMEOUT", time.time() - t0
 
 
 def ensure_p2x():
